@@ -258,6 +258,13 @@ func Gen(t *rapid.T, cfg Config) World {
 		}
 		w.Script = append(w.Script, c)
 	}
+	if cfg.Twins && nReg > 0 && nRem >= 2 && rapid.IntRange(0, 3).Draw(t, "pintwins?") == 0 {
+		// two releases that differ in build metadata only, lead to different packages and are both pinned:
+		// both are in the bundle, a lookup that spells the version a third way has no exact answer
+		rp := &w.Registry[0]
+		rp.Versions = append(rp.Versions, RegVersion{V: "3.3.3+a", Real: remoteAddrs[0]}, RegVersion{V: "3.3.3+b", Real: remoteAddrs[1]})
+		w.Script = append(w.Script, AddCall{Kind: "final", Addr: rp.Addr, Version: "3.3.3+a"}, AddCall{Kind: "final", Addr: rp.Addr, Version: "3.3.3+b"})
+	}
 	return w
 }
 
